@@ -1,4 +1,5 @@
 import BinlogVerif.Reader.Proto
+import BinlogVerif.Mser.Proto
 open BinlogVerif BinlogVerif.Proto
 
 def hexArg (s : String) : Option Bytes := if s == "-" then some [] else Bytes.ofHex s
@@ -12,6 +13,7 @@ def handle (line : String) : String :=
     | some p, some bs => cmdFilter p bs
     | _, _ => "bad-op"
   | "segmap" :: ops => cmdSegMap ops
+  | "mser" :: toks => BinlogVerif.Mser.Proto.cmdMser toks
   | ["print", s, h] => match hexArg h with | some b => cmdPrint (s == "1") b | none => "bad-op"
   | _ => "bad-op"
 
